@@ -706,6 +706,45 @@ pub fn c04_cases(rng: &mut Rng, tier: &str, out: &mut Out) {
                 }
                 out.raw(&case);
             }
+            // an UNALTERED archive delivered by a source that fails once with a hard I/O error inside a chunk: whatever the
+            // layers do with the error, what is written must be a prefix of the original files (nothing undecrypted,
+            // nothing from a later position)
+            if k % 97 == 0 {
+                // the same plan also under compression + encryption (the fail-safe decompressor reads its inner layer again
+                // after an error while it still holds input)
+                let mut plan2 = plan.clone();
+                plan2.layers = L_ENC | L_COMP;
+                let built2 = build(rng, &plan2).ok();
+                for layers_variant in [0usize, 1, 2, 3] {
+                    let b: &Built = if layers_variant >= 1 { match &built2 { Some(b2) => b2, None => continue } } else { built };
+                    let q = *rng.pick(&[5usize, 16, 33, 80, 100_000]);
+                    let at = 2 + rng.below((b.bytes.len() / q.min(80)) as u64 + 2) as usize;
+                    for unauth in [false, true] {
+                        let r = crate::repair::repair_with(crate::repair::ErrOnceReader { data: &b.bytes, pos: 0, q, calls: 0, at }, &b.privs, unauth);
+                        let mut e: Option<String> = r.crashed.clone().map(|p| format!("panic: {p}"));
+                        for (n, d) in &r.files {
+                            if let Some(i) = plan.names.iter().position(|x| x == n) {
+                                if !b.contents[i].starts_with(d) {
+                                    e = Some(format!("file {i} is not a prefix of the original ({} bytes recovered)", d.len()));
+                                }
+                            } else {
+                                e = Some("a name that is not in the original".into());
+                            }
+                        }
+                        out.case(&Case {
+                            id: format!("c04-a{ai}-{k}-erronce{layers_variant}-q{q}-at{at}-u{}", u8::from(unauth)),
+                            model_fn: "",
+                            args: vec![],
+                            imp: json!([]),
+                            oracle_ok: e.is_none(),
+                            oracle_msg: e.map(|m| format!("unaltered archive from a source failing once (read {at}, reads of {q} bytes), unauth={unauth}: {m}")).unwrap_or_default(),
+                            class: format!("{akind} source-fails-once unauth={unauth}"),
+                            nontrivial: true,
+                            meta: json!({"archive": ai, "q": q, "at": at}),
+                        });
+                    }
+                }
+            }
             // the same two repairs from a source that delivers the archive in short reads (a pipe,
             // a socket): the two modes must still relate as the property says
             if counter % (if tier == "thorough" { 2 } else { 5 }) == 0 {
